@@ -299,8 +299,8 @@ Fixpoint nth_call_ctx (hs : list hctx) (i : nat) : option hctx :=
   end.
 
 (* what the remote caller sees for its call: the reply if it was written; a connection error
-   once the connection is gone AND the remote session's own disconnect path is past its wait
-   for the remote handlers (those parked for our outgoing calls); nothing yet otherwise *)
+   once the connection is gone (qidle: and the remote session's disconnect path may cancel -
+   always, since it cancels before its wait for the remote handlers); nothing yet otherwise *)
 Definition in_class (s : sess) (qidle : bool) (r : inrec) : val :=
   match r with
   | InLost => vsym "connclosed"
@@ -329,7 +329,9 @@ Definition obs (g : g8) : val :=
   VL [ VL [VN (N.of_nat (x_calls (g_x g))); VN (N.of_nat (x_ret (g_x g)))];
        status_sym (st s);
        VN (N.of_nat (starts s));
-       VL (map (in_class s (match x_qrun (g_x g) with [] => true | _ => false end)) (g_ins g));
+       (* since 33a3798 the remote session cancels its pending calls before it waits for its own
+          handlers: its parked handlers (x_qrun) no longer delay what its callers see *)
+       VL (map (in_class s true) (g_ins g));
        VL (map (fun c => if c_dones c =? 0 then vsym "pending" else class_of (c_stat c)) (calls s));
        VL (map push_class (filter (fun h => match k_kind h with KPushOut => true | _ => false end) (hctxs s))) ].
 
